@@ -535,13 +535,22 @@ func (pConn *PFCPConn) handleDigestReport(fseid uint64) {
 		}
 	}
 
+	notify := false
+
 	for _, far := range session.fars {
 		if far.farID == farID {
 			if far.applyAction&ActionNotify == 0 {
 				logger.PfcpLog.Errorln("packet received for forwarding far. discard")
 				return
 			}
+
+			notify = true
 		}
+	}
+
+	if !notify {
+		logger.PfcpLog.Errorln("no FAR with notify action found for downlink PDR. discard")
+		return
 	}
 
 	if pdrID == 0 {
